@@ -188,6 +188,7 @@ func GeneratedXML() string {
 	b.WriteString(`<avp name="Gen-Coll-Vendor" code="73001" must="V" may="P" must-not="-" may-encrypt="-" vendor-id="9999"><data type="UTF8String"/></avp>` + "\n")
 	// a vendor-specific AVP whose must attribute does not list V, and a vendor-less one whose must does
 	b.WriteString(`<avp name="GenVM-UTF8String" code="74001" must="M" may="P" must-not="-" may-encrypt="-" vendor-id="9999"><data type="UTF8String"/></avp>` + "\n")
+	b.WriteString(`<avp name="GenVN-UTF8String" code="74003" must="M" may="P" must-not="V" may-encrypt="-" vendor-id="9999"><data type="UTF8String"/></avp>` + "\n")
 	b.WriteString(`<avp name="GenNV-Unsigned32" code="74002" must="M,V" may="P" must-not="-" may-encrypt="-"><data type="Unsigned32"/></avp>` + "\n")
 	for i := 0; i < 3; i++ {
 		v := ""
